@@ -2,6 +2,7 @@ package display
 
 import (
 	"fmt"
+	"strings"
 
 	"github.com/reeflective/readline/inputrc"
 	"github.com/reeflective/readline/internal/color"
@@ -257,7 +258,19 @@ func (e *Engine) displayLine() {
 	}
 
 	// Format tabs as spaces, for consistent display
-	line = strutil.FormatTabs(line) + term.ClearLineAfter
+	line = strutil.FormatTabs(line)
+
+	// Clear the rest of the row, unless the line ends exactly on the last
+	// column: the cursor is then still on that column (deferred wrap), and
+	// a VT100 or xterm would erase the character it has just printed there.
+	last := line
+	if idx := strings.LastIndex(last, "\n"); idx >= 0 {
+		last = last[idx+1:]
+	}
+
+	if used := strutil.RealLength(last) + e.startCols; used == 0 || used%term.GetWidth() != 0 {
+		line += term.ClearLineAfter
+	}
 
 	// And display the line.
 	e.suggested.Set([]rune(line)...)
